@@ -21,9 +21,11 @@ wt = '/tmp/confirm_' + name
 if '--no-confirm' not in sys.argv:
     subprocess.run(['git', '-C', '/repo', 'worktree', 'remove', '--force', wt], capture_output=True)
     subprocess.run(['git', '-C', '/repo', 'worktree', 'add', '-q', '--detach', wt, 'HEAD'], check=True)
-    env = dict(os.environ, CARGO_TARGET_DIR='/tmp/confirm_target', CARGO_NET_OFFLINE='true')
+    env = dict(os.environ, CARGO_TARGET_DIR=os.environ.get('CONFIRM_TARGET', '/tmp/confirm_target'), CARGO_NET_OFFLINE='true')
     demo_cmd = meta.get('demo_test') or meta.get('demo_cmd') or ''
     demo_cmd = re.sub(r'CARGO_TARGET_DIR=\S+\s*', '', demo_cmd)
+    demo_cmd = re.sub(r'^\s*cd\s+\S+\s*&&\s*', '', demo_cmd)
+    demo_cmd = re.sub(r'\(cd\s+\S+\s*&&\s*(.*)\)\s*$', r'\1', demo_cmd)
     rc, out = sh('git apply %s/demo.diff' % seed, wt)
     log.append('apply demo.diff: rc=%d %s' % (rc, out[-300:]))
     r0, out0 = sh(demo_cmd, wt, env)
@@ -52,7 +54,7 @@ log.append('apply to scratch copy: rc=%d %s' % (rc, out[-200:]))
 det = {}
 for prop in props:
     for tier in ('quick', 'thorough'):
-        rc, out = sh('/verif/check %s --tier %s --repo %s --no-evidence' % (prop, tier, dst), '/verif', timeout=7200)
+        rc, out = sh(os.environ.get('VERIF_ROOT', '/verif') + '/check %s --tier %s --repo %s --no-evidence' % (prop, tier, dst), os.environ.get('VERIF_ROOT', '/verif'), timeout=7200)
         lines = [l for l in out.split('\n') if l.startswith(('VIOLATION', 'TOOL-LIMIT', '  failed', prop + ' tier'))]
         det['%s/%s' % (prop, tier)] = {'exit': rc, 'lines': lines[:8]}
         log.append('== check %s %s -> exit %d\n%s' % (prop, tier, rc, '\n'.join(lines[:8])))
